@@ -49,7 +49,7 @@ pub fn eval_in_child(case: &Case, scratch: &str, n: usize) -> Vec<Violation> {
     let path = format!("{}/cand-{}.json", scratch, n);
     std::fs::write(&path, case.to_json().to_string()).expect("write candidate");
     let exe = std::env::current_exe().expect("exe");
-    let mut child = Command::new(exe).arg("eval-case").arg(&path).stdin(Stdio::null()).stdout(Stdio::piped()).stderr(Stdio::piped()).spawn().expect("spawn eval-case");
+    let mut child = Command::new(exe).arg("eval-case").arg(&path).env("RUST_BACKTRACE", "0").stdin(Stdio::null()).stdout(Stdio::piped()).stderr(Stdio::piped()).spawn().expect("spawn eval-case");
     let mut out = String::new();
     let mut err = String::new();
     // bounded wait: 30 s
